@@ -167,6 +167,27 @@ fn check_data_url(map: &MM, before: &[(Line, bool)], after: &[(Line, bool)], leg
         Ok(b) => b,
         Err(e) => return Verdict::Fail(e),
     };
+    // independently of the library's own reader: the URL is a base64 data URL (RFC 2397, standard
+    // alphabet with padding) whose payload is the serialised map - what any other consumer sees
+    {
+        let body = url
+            .strip_prefix("data:application/json;charset=utf-8;base64,")
+            .or_else(|| url.strip_prefix("data:application/json;base64,"));
+        let Some(body) = body else {
+            return Verdict::Fail(format!("to_data_url() does not start with a base64 application/json preamble: {:?}", &url[..url.len().min(60)]));
+        };
+        let want = crate::refimpl::v3::base64(&payload);
+        if body != want {
+            let i = body.bytes().zip(want.bytes()).position(|(a, b)| a != b).unwrap_or(body.len().min(want.len()));
+            return Verdict::Fail(format!(
+                "to_data_url() payload is not the standard base64 (with padding) of the serialised map: differs at offset {i} ({:?} vs {:?}, lengths {} / {})",
+                body.get(i..(i + 8).min(body.len())),
+                want.get(i..(i + 8).min(want.len())),
+                body.len(),
+                want.len()
+            ));
+        }
+    }
     let plain = format!("data:application/json;base64,{}", crate::refimpl::v3::base64(&payload));
     match guard(|| decode_data_url(&plain)) {
         Ok(Ok(m)) => ensure_eq!(obs_any(&m), expected, "decode_data_url(plain base64 form) differs from decode(serialise(m))"),
